@@ -16,7 +16,7 @@ from ..common import rng_for, b2j
 
 LEVEL = "exploration"
 SHARDS = {"quick": 1, "thorough": 16}
-REQUIRED = ("repacks_after_assignment", "packs_compared_with_reference_encoding", "reparse_compared", "assert_consistency_true", "insert_traces_compared",
+REQUIRED = ("position_sweep_trees", "repacks_after_assignment", "packs_compared_with_reference_encoding", "reparse_compared", "assert_consistency_true", "insert_traces_compared",
             "built_by_kwargs", "built_by_attrs", "built_by_mixed", "nested_trees", "boundary_int_values", "empty_lists", "absent_optionals",
             "f2_probe_runs")
 MIN_NONTRIVIAL = 150
@@ -225,7 +225,7 @@ def run(run):
     shard, nshards = run.shard
     rng = rng_for(run.seed, "c02", shard)
     nfam = 420 if run.tier == "quick" else 2200
-    profile = {"allow_regex_nokeep_single": False, "p_move": 0.16, "p_backward_at": 0.1, "allow_raw_callbacks": False, "p_describe": 0.08}
+    profile = {"allow_regex_nokeep_single": False, "p_move": 0.2, "p_backward_at": 0.3, "allow_raw_callbacks": False, "p_describe": 0.08}
     if run.tier == "thorough":
         profile["max_depth"] = 4
     if shard == 0:
@@ -248,6 +248,20 @@ def run(run):
                 seen.add(key)
                 del mon.log()[:]
                 judge_tree(run, bench, mr.value, rng, mon)
+                if j < 4:
+                    # dense placement geometry: every small value of the fields that steer a position (fields end up in
+                    # holes, flush against and behind others); inconsistent / overlapping trees are skipped by judge_tree
+                    for steer in [f for f in fam["decls"][fam["root"]]["fields"]
+                                  if "pos" in (f.get("hint") or {}) and f["t"] in ("int", "bits") and "rep" not in f and "opt" not in f][:2]:
+                        top = min(len(raw) + 3, 24)
+                        for val in range(top):
+                            if mr.value.vals.get(steer["name"]) == val:
+                                continue
+                            m = model.copy_val(mr.value)
+                            m.vals[steer["name"]] = val
+                            run.count("position_sweep_trees")
+                            del mon.log()[:]
+                            judge_tree(run, bench, m, rng, mon)
                 if sampled < 3 and len(mr.value.vals) > 2:
                     sampled += 1
                     run.sample({"source": driver.src_of(bench), "values": mr.value.to_json()})
